@@ -61,6 +61,10 @@ var normInline string // "", a package path, or "all"
 // normInlineStmts additionally inlines calls that are whole statements (not only tail calls).
 var normInlineStmts bool
 
+// normInlineMulti additionally inlines small functions that have several call sites (their declaration stays) and calls
+// in expression position (hoisted into a temporary first); see hoist in normalise_inline.go.
+var normInlineMulti bool
+
 // normInlineClosures additionally inlines local closures that are only called (normalise_closure.go).
 var normInlineClosures string // "", a package path, or "all"
 
@@ -114,7 +118,7 @@ func loadWorld(repoDir string, overlay map[string][]byte, goarch string) *World 
 	if nerr > 0 {
 		infra("type-check/load errors (%d), first: %s", nerr, first)
 	}
-	if normRound < 9 {
+	if normRound < 9 || normInlineMulti && normRound < 24 {
 		// source normalisation (normalise*.go): glue tail-called halves of split functions together again, then split
 		// local struct variables used field by field; reload after each round that changed something
 		var own []*packages.Package
